@@ -410,7 +410,14 @@ func GenC10(seed uint64) *Scenario {
 		supis = append(supis, s)
 		g.sc.Accounts = append(g.sc.Accounts, Account{Supi: s, RG: 1, Quota: 2_000_000_000, UnitCost: "1"})
 	}
-	g.sc.Shape = fmt.Sprintf("conc=%v supis=%d", conc, nSupi)
+	// a long-running CHF: the record counter starts near a power of two
+	if g.r.Chance(250) {
+		g.sc.Cfg.CounterStart = []uint64{1<<32 - 3, 1<<32 - 1, 1<<31 - 2, 1<<16 - 2, 1<<33 - 2, 99, 999}[g.r.Intn(7)]
+	}
+	g.sc.Shape = fmt.Sprintf("conc=%v supis=%d counter=%d", conc, nSupi, g.sc.Cfg.CounterStart)
+	if !conc && g.r.Chance(60) {
+		return genC10Split(g, supis)
+	}
 	if !conc {
 		var ops []Op
 		var live []*sessState
@@ -529,6 +536,36 @@ func GenC10(seed uint64) *Scenario {
 	return g.sc
 }
 
+// genC10Split: two or three sessions of one subscriber (and a one-time event), then fat
+// updates on the OLDEST session until its record is split: the reference must keep
+// designating that session.
+func genC10Split(g *gen, supis []string) *Scenario {
+	supi := supis[0]
+	g.sc.Cfg.MemRecords = true
+	var ops []Op
+	n := 2 + g.r.Intn(2)
+	for i := 0; i < n; i++ {
+		ops = append(ops, Op{ID: g.id(), Kind: "create", Supi: supi, Sess: fmt.Sprintf("s%d", i), Consumer: fmt.Sprintf("smf-%c", 'a'+i), ChargingID: int32(111 * (i + 1))})
+	}
+	if g.r.Chance(400) {
+		ops = append(ops, Op{ID: g.id(), Kind: "create", OneTime: true, Supi: supi, Sess: "ev", Consumer: "smf-e", ChargingID: 9})
+	}
+	old := &sessState{name: "s0", supi: supi, rgs: []int32{1}}
+	for i, k := 0, 8+g.r.Intn(6); i < k; i++ {
+		ops = append(ops, g.cdrUsageOp("update", old, 350+g.r.Intn(150), false, false))
+	}
+	for i := 0; i < n; i++ {
+		ops = append(ops, Op{ID: g.id(), Kind: "update", Supi: supi, Sess: fmt.Sprintf("s%d", i), Units: []Unit{{RG: 1, Req: 10, Containers: []Container{g.offline()}}}})
+	}
+	ops = append(ops, Op{ID: g.id(), Kind: "release", Supi: supi, Sess: "s0", Final: true, Units: []Unit{{RG: 1, Req: 0, Containers: []Container{g.offline()}}}})
+	for i := 1; i < n; i++ {
+		ops = append(ops, Op{ID: g.id(), Kind: "update", Supi: supi, Sess: fmt.Sprintf("s%d", i), Units: []Unit{{RG: 1, Req: 10, Containers: []Container{g.offline()}}}})
+	}
+	g.sc.Shape += " split-family"
+	g.sc.Tasks = []Task{{ID: 0, Ops: ops}}
+	return g.sc
+}
+
 // ---------------------------------------------------------------- C18
 
 func GenC18(seed uint64) *Scenario {
@@ -556,6 +593,11 @@ func GenC18(seed uint64) *Scenario {
 		}
 		op := Op{ID: g.id(), Kind: "update", Supi: supiN(s), Sess: fmt.Sprintf("s%d", s),
 			Units: []Unit{{RG: rg, Req: int32(100 + g.r.Intn(100)), Containers: []Container{g.online(1000)}}}}
+		if rg == 1 && g.r.Chance(lossy) {
+			// the peer restarts right after the capabilities exchange: the request cannot be written
+			g.sc.Faults = append(g.sc.Faults, simnet.Fault{Peer: []string{"rf", "abmf"}[g.r.Intn(2)], Task: 0, Op: op.ID, Dir: "ans",
+				Cmd: 257, Nth: g.r.Intn(2), Kind: simnet.KCloseAfter})
+		}
 		if rg == 1 && g.r.Chance(lossy) {
 			g.sc.Faults = append(g.sc.Faults, simnet.Fault{Peer: []string{"rf", "abmf"}[g.r.Intn(2)], Task: 0, Op: op.ID, Dir: "ans",
 				Cmd: 0, Nth: 1, Kind: []string{simnet.KDrop, simnet.KStall, simnet.KWithhold}[g.r.Intn(3)], DelayNs: 1_000_000})
@@ -645,6 +687,12 @@ func GenC19(seed uint64) *Scenario {
 	if idx >= len(c19Enum) && g.r.Chance(250) {
 		return genC19DebitMode(g)
 	}
+	if idx >= len(c19Enum) && g.r.Chance(200) {
+		return genC19ReleaseDuringUpdate(g)
+	}
+	if idx >= len(c19Enum) && g.r.Chance(200) {
+		return genC19AfterFinalUnit(g)
+	}
 	if idx < len(c19Enum) {
 		p := c19Enum[idx]
 		for i := 1; i <= K; i++ {
@@ -718,6 +766,43 @@ func genC19TwoSubscribers(g *gen) *Scenario {
 	}
 	g.sc.Tasks = append(g.sc.Tasks, Task{ID: 1, StartNs: t0, Ops: aOps}, Task{ID: 2, StartNs: t0 + g.r.Range(0, 400_000_000), Ops: bOps})
 	g.sc.Shape = fmt.Sprintf("two-subscribers a=%d b=%d", len(aOps), len(bOps))
+	return g.sc
+}
+
+// genC19ReleaseDuringUpdate: an update waits for a slow (not lost) answer while the release of
+// the same session arrives.  Both must act on their own answers.
+func genC19ReleaseDuringUpdate(g *gen) *Scenario {
+	g.sc.Cfg.Concurrent = true
+	g.sc.Cfg.MaxLatNs = 2_000_000
+	g.sc.Cfg.OpBudgetNs = 120_000_000_000
+	supi := supiN(1)
+	g.sc.Accounts = []Account{{Supi: supi, RG: 1, Quota: 2_000_000_000, UnitCost: "1"}}
+	pro := []Op{{ID: g.id(), Kind: "create", Supi: supi, Sess: "s", Consumer: "smf", ChargingID: 1},
+		{ID: g.id(), Kind: "update", Supi: supi, Sess: "s", Units: []Unit{{RG: 1, Req: 1000, Containers: []Container{g.online(0)}}}}}
+	g.sc.Tasks = []Task{{ID: 0, Ops: pro}}
+	upd := Op{ID: g.id(), Kind: "update", Supi: supi, Sess: "s", Role: "unfaulted", Units: []Unit{{RG: 1, Req: 600, Containers: []Container{g.online(100)}}}}
+	g.sc.Faults = []simnet.Fault{{Peer: []string{"rf", "abmf"}[g.r.Intn(2)], Task: 1, Op: upd.ID, Dir: "ans", Cmd: 0, Nth: 1 + g.r.Intn(2), Kind: simnet.KDelay, DelayNs: g.r.Range(500, 2800) * 1_000_000}}
+	rel := Op{ID: g.id(), Kind: "release", Supi: supi, Sess: "s", Final: true, Units: []Unit{{RG: 1, Req: 0, Containers: []Container{g.online(500)}}}}
+	g.sc.Tasks = append(g.sc.Tasks, Task{ID: 1, StartNs: 500_000_000, Ops: []Op{upd}}, Task{ID: 2, StartNs: 500_000_000 + g.r.Range(50, 400)*1_000_000, Ops: []Op{rel}})
+	g.sc.Shape = "release during pending update"
+	return g.sc
+}
+
+// genC19AfterFinalUnit: subscriber A runs its account dry (its answers carry a final-unit
+// indication); then subscriber B, with ample balance, must not see any of it.
+func genC19AfterFinalUnit(g *gen) *Scenario {
+	g.sc.Cfg.MaxLatNs = 2_000_000
+	a, b := supiN(1), supiN(2)
+	g.sc.Accounts = []Account{{Supi: a, RG: 1, Quota: g.r.Range(0, 800), UnitCost: "1"}, {Supi: b, RG: 1, Quota: 2_000_000_000, UnitCost: "1"},
+		{Supi: b, RG: 2, Quota: 2_000_000_000, UnitCost: "1"}}
+	ops := []Op{{ID: g.id(), Kind: "create", Supi: a, Sess: "sa", Consumer: "smf", ChargingID: 1}, {ID: g.id(), Kind: "create", Supi: b, Sess: "sb", Consumer: "smf", ChargingID: 2},
+		{ID: g.id(), Kind: "update", Supi: a, Sess: "sa", Units: []Unit{{RG: 1, Req: 1000, Containers: []Container{g.online(0)}}}}}
+	for i := 0; i < 2+g.r.Intn(3); i++ {
+		ops = append(ops, Op{ID: g.id(), Kind: "update", Supi: b, Sess: "sb", Role: "unfaulted",
+			Units: []Unit{{RG: int32(1 + i%2), Req: int32(1000 + 41*i), Containers: []Container{g.online([]int{0, 1000}[i%2])}}}})
+	}
+	g.sc.Shape = "after final unit of another subscriber"
+	g.sc.Tasks = []Task{{ID: 0, Ops: ops}}
 	return g.sc
 }
 
@@ -797,6 +882,7 @@ func GenC09(seed uint64) *Scenario {
 	proEnd := int64(len(pro)+1) * 2_000_000
 	g.sc.Tasks = append(g.sc.Tasks, Task{ID: 0, Ops: pro})
 	released := map[string]bool{}
+	var dupRelease []Op // a retransmitted / duplicate release of a session, sent by another task
 	for t := 1; t <= nTasks; t++ {
 		var ops []Op
 		nOps := 1 + g.r.Intn(3)
@@ -832,6 +918,9 @@ func GenC09(seed uint64) *Scenario {
 					released[st.name] = true
 					ops = append(ops, Op{ID: g.id(), Kind: "release", Supi: st.supi, Sess: st.name, Final: true,
 						Units: []Unit{{RG: 1, Req: 0, Containers: []Container{g.online(1000)}}}})
+					if g.r.Chance(300) {
+						dupRelease = append(dupRelease, Op{Kind: "release", Supi: st.supi, Sess: st.name, Final: true, Role: "may-reject"})
+					}
 				case released[st.name]:
 					ops = append(ops, Op{ID: g.id(), Kind: "recharge", Supi: st.supi, RG: 1, TopUp: 0})
 				default:
@@ -852,6 +941,10 @@ func GenC09(seed uint64) *Scenario {
 			}
 		}
 		g.sc.Tasks = append(g.sc.Tasks, Task{ID: t, StartNs: proEnd + g.r.Range(0, window), Ops: ops})
+	}
+	for i, d := range dupRelease {
+		d.ID = g.id()
+		g.sc.Tasks = append(g.sc.Tasks, Task{ID: nTasks + 1 + i, StartNs: proEnd + g.r.Range(0, window+1), Ops: []Op{d}})
 	}
 	// a release op must be the only user of its session afterwards: drop later ops on released sessions in other tasks
 	// (a request for a released session is a rejected request, which C12 covers; here every op is meant to be accepted)
